@@ -794,6 +794,81 @@ def _null_test(e, cursor_of):
     return None
 
 
+def _entry_index_in_opener(u, fn, pparam, opener, by_value):
+    """how many bytes of the opener every caller of the skipper has already stepped over when it calls it: the smallest alignment of
+    the opener under the cursor that agrees with what the caller has tested about the bytes there (`case '/': json++; if (json[0] ==
+    '*') skip(&json)` calls with the cursor on the second byte); 0 when nothing is known"""
+    from ..dataflow import access, node_effects
+    pidx = [i for i, p_ in enumerate(fn.params) if p_['d'] == pparam['d']][0]
+    best = None
+    for g in u.function_list:
+        if g.body is None:
+            continue
+        for c in g.calls():
+            if callee_name(c) != fn.name or pidx >= len(c['args']):
+                continue
+            a = strip_casts(c['args'][pidx])
+            if not by_value and a.get('k') == 'un' and a['op'] == '&':
+                a = strip_casts(a['e'])
+            if a.get('k') != 'ref':
+                best = 0
+                continue
+            v = a['d']
+            cfg = g.cfg()
+            N = cfg.node_of_expr(c['id'])
+            if N is None:
+                best = 0
+                continue
+            moves = {}
+            for m in cfg.nodes:
+                for ev in node_effects(m):
+                    if ev.kind == 'incdec' and is_ref(ev.lhs) and strip_casts(ev.lhs)['d'] == v:
+                        moves[m.id] = moves.get(m.id, 0) + ev.delta
+                    elif ev.kind == 'store' and is_ref(ev.lhs) and strip_casts(ev.lhs)['d'] == v:
+                        k_ = const_val(ev.node['r']) if ev.node['op'] in ('+=', '-=') else None
+                        moves[m.id] = None if k_ is None else moves.get(m.id, 0) + (k_ if ev.node['op'] == '+=' else -k_)
+            facts = []
+            for b in cfg.nodes:
+                tests = []
+                if b.kind == 'branch' and b.expr is not None:
+                    pc = cmp_parts(b.expr)
+                    if pc is not None and pc[1] in ('==', '!=') and pc[2] is not None:
+                        acc = access(strip_casts(pc[0])) if strip_casts(pc[0]).get('k') in ('idx', 'un') else None
+                        if acc is not None and strip_casts(acc[0]).get('k') == 'ref' and strip_casts(acc[0])['d'] == v and isinstance(acc[1], int):
+                            tests.append((acc[1], pc[2], 'T' if pc[1] == '==' else 'F'))
+                elif b.kind == 'switch' and b.expr is not None:
+                    acc = access(strip_casts(b.expr)) if strip_casts(b.expr).get('k') in ('idx', 'un') else None
+                    if acc is not None and strip_casts(acc[0]).get('k') == 'ref' and strip_casts(acc[0])['d'] == v and isinstance(acc[1], int):
+                        for (y, l) in cfg.succ[b.id]:
+                            if l is not None and l[0] == 'case':
+                                tests.append((acc[1], l[2], ('case', l[2])))
+                for (i_, ch, lab) in tests:
+                    def edge(nn, l, b=b, lab=lab):
+                        if nn.id != b.id or l is None:
+                            return False
+                        return (l[0] == lab) if isinstance(lab, str) else (l[0] == 'case' and l[2] == lab[1])
+                    if not guarded_by(cfg, N.id, edge):
+                        continue
+                    targets = [y for (y, l) in cfg.succ[b.id] if l is not None and ((l[0] == lab) if isinstance(lab, str) else (l[0] == 'case' and l[2] == lab[1]))]
+                    after = set()
+                    for y in targets:
+                        after |= cfg.reachable(y, stop={b.id}) | {y}       # (the same turn of an enclosing loop: not through the test again)
+                    between = [m for m in moves if m in after and m != N.id and N.id in (cfg.reachable(m, stop={b.id}) | {m})]
+                    shift = 0
+                    ok = True
+                    for m in between:
+                        if moves[m] is None or N.id in (set().union(*[cfg.reachable(y, stop={m, b.id}) | {y} for y in targets]) if targets else set()):
+                            ok = False
+                            break
+                        shift += moves[m]
+                    if ok:
+                        facts.append((i_ - shift, ch))
+            j_ok = [j for j in range(0, len(opener)) if all(0 <= j + i_ < len(opener) and ord(opener[j + i_]) == ch for (i_, ch) in facts)]
+            j = min(j_ok) if (facts and j_ok) else 0
+            best = j if best is None else min(best, j)
+    return best or 0
+
+
 def tab19(units, R):
     """A comment skipper first steps over its opener, then leaves its scanning loop only at the terminator or when the
     bytes *at* the cursor spell its closer, having stepped over exactly the closer.  Decided by following every path of
@@ -990,8 +1065,23 @@ def tab19(units, R):
         # opener
         n_ob += 1
         op_disps = {max([v for v in dict(t).values() if v is not None] or [0]) for t in results['opener']}
-        R.ob('TAB19', fn, None, '%s steps over its opener %r before scanning' % (name, opener), op_disps == {len(opener)},
-             'cursor displacement at the loop head: %s' % sorted(op_disps), key='opener:' + name)
+        ok_op = op_disps == {len(opener)}
+        why_op = 'cursor displacement at the loop head: %s' % sorted(op_disps)
+        if not ok_op and op_disps and all(isinstance(d_, int) for d_ in op_disps):
+            # the callers may already have stepped into the opener: what counts is that no byte of the opener that is still ahead
+            # when the scan begins can be taken for the beginning of the closer
+            entry = _entry_index_in_opener(u, fn, pp[0], opener, by_value)
+            worst = None
+            for d_ in op_disps:
+                consumed = entry + d_
+                if consumed > len(opener):
+                    worst = 'the scan begins %d byte(s) behind the opener' % (consumed - len(opener))
+                elif consumed < len(opener) and (set(opener[consumed:].encode('latin1')) & set(closer.encode('latin1'))):
+                    worst = 'the scan begins on %r of the opener, which it can take for the beginning of the closer %r' % (opener[consumed:], closer)
+            ok_op = worst is None
+            why_op = ('entered %d byte(s) into the opener by every caller, %s more stepped over: nothing of the opener that is left can '
+                      'begin the closer' % (entry, sorted(op_disps))) if ok_op else worst
+        R.ob('TAB19', fn, None, '%s steps over its opener %r before scanning' % (name, opener), ok_op, why_op, key='opener:' + name)
         # exits of the scanning loop
         found = False
         for (disp, B, node) in results['exits']:
@@ -1121,6 +1211,55 @@ def _tab19_bytepath(u, fn, name, opener, closer, pcur, R):
 KEY_COMPARATORS = {'compare_strings', 'case_insensitive_strcmp', 'compare_pointers', 'strcmp'}
 
 
+def _first_byte_difference_like_strcmp(u, fn, diff):
+    """diff is `A - B` over bytes of two keys.  It orders the keys as strcmp does when both bytes are index 0, both are converted to
+    unsigned char before the subtraction, the subtraction is reached only where the two bytes differ, and (in a function with a
+    case flag) only where the comparison is exact."""
+    from ..dataflow import access
+
+    def first_byte(e):
+        unsigned8 = False
+        while e.get('k') == 'cast':
+            t = u.ty(e['ty'])
+            if t.get('c') == 'int' and t.get('bits') == 8 and t.get('unsigned'):
+                unsigned8 = True
+            e = e['e']
+        acc = access(e) if e.get('k') in ('idx', 'un') else None
+        if acc is None or acc[1] != 0:
+            return None
+        t0 = u.ty(e.get('ty0', e['ty'])) if ('ty' in e or 'ty0' in e) else {}
+        if t0.get('c') == 'int' and t0.get('bits') == 8 and t0.get('unsigned'):
+            unsigned8 = True
+        return (expr_str(strip_casts(acc[0])), unsigned8)
+    a, b = first_byte(diff['l']), first_byte(diff['r'])
+    if a is None or b is None or not (a[1] and b[1]) or a[0] == b[0]:
+        return False
+    cfg = fn.cfg()
+    nd = cfg.node_of_expr(diff['id'])
+    if nd is None:
+        return False
+
+    def differ_edge(nn, l):
+        if nn.kind != 'branch' or l is None or l[0] not in ('T', 'F') or nn.expr is None:
+            return False
+        e = strip_casts(nn.expr)
+        if e.get('k') != 'bin' or e['op'] not in ('==', '!='):
+            return False
+        x, y = first_byte(e['l']) or first_byte(strip_casts(e['l'])), first_byte(e['r']) or first_byte(strip_casts(e['r']))
+        if x is None or y is None or {x[0], y[0]} != {a[0], b[0]}:
+            return False
+        return (e['op'] == '!=') == (l[0] == 'T')
+    if not guarded_by(cfg, nd.id, differ_edge):
+        return False
+    fi = _flag_index(fn)
+    if fi is not None:
+        pd = fn.params[fi]['d']
+        if not guarded_by(cfg, nd.id, lambda nn, l: nn.kind == 'branch' and l is not None and l[0] == 'T' and
+                          strip_casts(nn.expr).get('k') == 'ref' and strip_casts(nn.expr).get('d') == pd):
+            return False
+    return True
+
+
 def tab20(units, R):
     """Member keys are ordered/compared through the comparator functions (or strcmp); no function does arithmetic or
     relational comparison on individual bytes of a node's key, which would disagree with the order the sorter used."""
@@ -1144,6 +1283,11 @@ def tab20(units, R):
                 p = par.get(p['id'])
             bad = p is not None and p.get('k') == 'bin' and p['op'] in ('-', '<', '>', '<=', '>=') and \
                 const_val(p['l']) is None and const_val(p['r']) is None
+            if bad and p['op'] == '-' and _first_byte_difference_like_strcmp(u, fn, p):
+                R.ob('TAB20', fn, x, 'byte of a member key %s is not used to order keys' % expr_str(x)[:40], True,
+                     'difference of the first bytes read as unsigned char, taken only where they differ and the comparison is exact: '
+                     'the sign strcmp gives', key='keybyte:%s' % expr_str(x)[:40])
+                continue
             R.ob('TAB20', fn, x, 'byte of a member key %s is not used to order keys' % expr_str(x)[:40], not bad,
                  'compared with a constant / copied' if not bad else
                  'key bytes combined with %s: the order of keys must come from compare_strings/strcmp, as in the sorter' % p['op'],
